@@ -279,7 +279,8 @@ FRACTIONS = [Fraction(0), Fraction(1), Fraction(-1, 3), Fraction(22, 7), Fractio
 COMPLEXES = [0j, 1 + 0j, 1j, -1.5 + 2j, complex("inf"), complex(0.0, -0.0), 3 + 4j]
 
 B64_ALPHABET = re.compile(r"[A-Za-z0-9+/]*={0,2}")
-BYTESES = [b"", b"a", b"ab", b"abc", b"\x00\xff", bytes(range(20)), b"hello world", b"\xfb\xff"]
+# the long ones cross the 57-byte / 76-character line length of MIME base64 (seeded change: a dumper that wraps its output)
+BYTESES = [b"", b"a", b"ab", b"abc", b"\x00\xff", bytes(range(20)), b"hello world", b"\xfb\xff", bytes(range(57)), bytes(range(58)), bytes(range(256)) * 2, b"\xff" * 115]
 
 
 class BytesT(Node):
